@@ -160,36 +160,42 @@ def staticErrdoc (d : RespIn) (st : RespSt) : RespSt :=
 
 def isBodiless (status : Nat) : Bool := status = 204 || status = 205 || status = 304
 
-/-- http_response_write_prepare() -/
-def writePrepare (d : RespIn) : RespSt :=
+/-- http_response_write_prepare(), first part: `switch (r->http_status)` -/
+def wpStatus (d : RespIn) : RespSt :=
   let st0 : RespSt := { status := d.status, hdrs := d.hdrs, body := d.queued, finished := d.finished,
                         sendChunked := false, keepAlive := d.keepAlive }
-  -- switch (r->http_status)
-  let st1 : RespSt :=
-    if d.status = 200 then st0
-    else if d.status = 204 || d.status = 205 then
-      { bodyClear { st0 with hdrs := Hdrs.unset st0.hdrs nContentLength } true with finished := true }
-    else if d.status = 304 then { bodyClear st0 true with finished := true }
-    else if 400 ≤ d.status && d.status < 600 then staticErrdoc d st0
-    else st0
-  let st2 : RespSt :=
-    if st1.finished then
-      if !(Hdrs.has st1.hdrs nContentLength || Hdrs.has st1.hdrs nTransferEncoding) then
-        if st1.body.length > 0 then
-          { st1 with hdrs := Hdrs.set st1.hdrs nContentLength (natToDec st1.body.length) }
-        else if d.meth ≠ .head && st1.status ≠ 204 && st1.status ≠ 304 then
-          { st1 with hdrs := Hdrs.set st1.hdrs nContentLength [48] }
-        else st1
+  if d.status = 200 then st0
+  else if d.status = 204 || d.status = 205 then
+    { bodyClear { st0 with hdrs := Hdrs.unset st0.hdrs nContentLength } true with finished := true }
+  else if d.status = 304 then { bodyClear st0 true with finished := true }
+  else if 400 ≤ d.status && d.status < 600 then staticErrdoc d st0
+  else st0
+
+/-- second part: choose Content-Length / chunked / close -/
+def wpFraming (d : RespIn) (st1 : RespSt) : RespSt :=
+  if st1.finished then
+    if !(Hdrs.has st1.hdrs nContentLength || Hdrs.has st1.hdrs nTransferEncoding) then
+      if st1.body.length > 0 then
+        { st1 with hdrs := Hdrs.set st1.hdrs nContentLength (natToDec st1.body.length) }
+      else if d.meth ≠ .head && st1.status ≠ 204 && st1.status ≠ 304 then
+        { st1 with hdrs := Hdrs.set st1.hdrs nContentLength [48] }
       else st1
-    else if !(Hdrs.has st1.hdrs nContentLength || Hdrs.has st1.hdrs nTransferEncoding
-              || Hdrs.has st1.hdrs nUpgrade) then
-      if d.meth = .connect && st1.status = 200 then st1
-      else if d.ver11 then
-        { st1 with sendChunked := true, body := chunkFirst st1.body,
-                   hdrs := Hdrs.append st1.hdrs nTransferEncoding (ofString "chunked") }
-      else { st1 with keepAlive := false }
     else st1
+  else if !(Hdrs.has st1.hdrs nContentLength || Hdrs.has st1.hdrs nTransferEncoding
+            || Hdrs.has st1.hdrs nUpgrade) then
+    if d.meth = .connect && st1.status = 200 then st1
+    else if d.ver11 then
+      { st1 with sendChunked := true, body := chunkFirst st1.body,
+                 hdrs := Hdrs.append st1.hdrs nTransferEncoding (ofString "chunked") }
+    else { st1 with keepAlive := false }
+  else st1
+
+/-- last part: a HEAD response is like GET, without the content -/
+def wpHead (d : RespIn) (st2 : RespSt) : RespSt :=
   if d.meth = .head then { bodyClear st2 true with finished := true } else st2
+
+/-- http_response_write_prepare() -/
+def writePrepare (d : RespIn) : RespSt := wpHead d (wpFraming d (wpStatus d))
 
 /-- http_response_omit_header(): X-Sendfile and X-LIGHTTPD-* are internal -/
 def omitHeader (k : Bytes) : Bool :=
@@ -279,5 +285,48 @@ def encodeStr (enc : Nat) (s : Bytes) : Bytes := s.flatMap (encodeByte enc)
     `pfx` is "scheme://authority" (absolute redirects) or empty -/
 def redirectLocation (pfx path query : Bytes) : Bytes :=
   pfx ++ encodeStr 0 path ++ [slash] ++ (if query.isEmpty then [] else qmark :: query)
+
+/-! ### reference side (RFC 9112 §6.3, written from the RFC, not from the C)
+
+  What a client that follows the RFC takes the message body to be, given the status, whether the
+  request was HEAD, and the header fields it received. -/
+
+inductive Framing where
+  | none                  -- the message has no body (HEAD, 1xx, 204, 304)
+  | length (n : Nat)      -- Content-Length
+  | chunked               -- Transfer-Encoding: chunked
+  | close                 -- delimited by the end of the connection
+  | invalid               -- the framing fields cannot be interpreted
+deriving Repr, DecidableEq
+
+def decNat (v : Bytes) : Nat := v.foldl (fun a b => 10 * a + (b.toNat - 48)) 0
+
+def rfcFraming (isHead : Bool) (status : Nat) (hs : List Hdr) : Framing :=
+  if isHead || status / 100 = 1 || status = 204 || status = 304 then .none
+  else if Hdrs.has hs nTransferEncoding then
+    (if Hdrs.get hs nTransferEncoding = some (ofString "chunked") then .chunked else .invalid)
+  else
+    match Hdrs.get hs nContentLength with
+    | some v => if v.isEmpty then .close else if v.all isDigit then .length (decNat v) else .invalid
+    | none => .close
+
+/-- the reference chunked decoder: the request-side automaton without a size limit -/
+def refCfg : CkCfg := { maxSize := 0, maxField := 8192 }
+
+/-- split what follows the header section into (message body, bytes that belong to what follows) -/
+def rfcBody : Framing → Bytes → Option (Bytes × Bytes)
+  | .none, w => some ([], w)
+  | .length n, w => if n ≤ w.length then some (w.take n, w.drop n) else none
+  | .chunked, w =>
+    let st := ckFeed refCfg {} w
+    if st.mode = .done && st.ka then some (st.out, w.drop (w.length - st.after)) else none
+  | .close, w => some (w, [])
+  | .invalid, _ => none
+
+/-- the body the handler meant the client to get -/
+def intendedBody (d : RespIn) : Bytes :=
+  if d.meth = .head || isBodiless d.status then []
+  else if 400 ≤ d.status && d.status < 600 && errdocApplies d then errorPage d.status
+  else d.queued ++ (if d.finished then [] else d.pieces.flatten)
 
 end LtVerif
